@@ -24,6 +24,9 @@ Definition Goal (p g : list byte) (res : list byte * list byte) : Prop :=
 Definition Kc (p : list byte) (E : list byte -> list byte * list byte -> Prop) : Prop :=
   forall g res, E g res -> Goal p g res.
 Definition Done (p O : list byte) : Prop := forall g, Goal p g (O, g).
+(* the end of a frame: an LZ4 frame accepted by the specification, or a skippable frame *)
+Definition Fin (p O : list byte) : Prop :=
+  Done p O \/ (O = [] /\ 4 <= zlen p /\ Z.land (rd32 p) SKIP_MASK = FD_MAGIC_SKIPPABLE_START).
 
 (* like FrameDSound.binv, with the history relative to [ah] and the hashes / remaining size
    relative to [ax] (they differ while a decoded block waits in tmpOut) *)
@@ -90,11 +93,11 @@ Inductive CInv (p O : list byte) (s : dstate) : Prop :=
   | C_x d maxb :
       d_stage s = GetSuffix -> binv skip d maxb dict O s -> Kc p (E_suffix skip d O) -> CInv p O s
   | C_xs d maxb t :
-      d_stage s = StoreSuffix -> binv skip d maxb dict O s -> f_ccrc d = true ->
+      d_stage s = StoreSuffix -> binv skip d maxb dict O s -> f_ccrc d = true -> d_remaining s = 0 ->
       pre (d_tmpIn s) (d_tmpInSize s) = t -> bytes_ok t = true ->
       Kc p (fun g => E_suffix skip d O (t ++ g)) -> CInv p O s
   | C_skip :
-      in_skip (d_stage s) = true -> 4 <= zlen p -> Z.land (rd32 p) SKIP_MASK = FD_MAGIC_SKIPPABLE_START -> CInv p O s.
+      in_skip (d_stage s) = true -> O = [] -> 4 <= zlen p -> Z.land (rd32 p) SKIP_MASK = FD_MAGIC_SKIPPABLE_START -> CInv p O s.
 
 (* what a piece of the stage machine that does not itself consume input leaves behind
    ([pn] : consumed so far, including what its caller consumed for it) *)
@@ -103,7 +106,7 @@ Definition after (pn O : list byte) (l : lst) (r : lst * outcome) : Prop :=
   | Ret _ => True
   | Continue => exists y, l_src (fst r) = l_src l /\ l_out (fst r) = l_out l ++ y /\ CInv pn (O ++ y) (l_s (fst r))
   | Stop h => exists y, l_src (fst r) = l_src l /\ l_out (fst r) = l_out l ++ y /\
-                        if h =? 0 then Done pn (O ++ y) else CInv pn (O ++ y) (l_s (fst r))
+                        if h =? 0 then Fin pn (O ++ y) else CInv pn (O ++ y) (l_s (fst r))
   end.
 (* ... and a whole stage, which consumes a prefix x of the input it was offered *)
 Definition stepr (p O : list byte) (l : lst) (r : lst * outcome) : Prop :=
@@ -112,7 +115,7 @@ Definition stepr (p O : list byte) (l : lst) (r : lst * outcome) : Prop :=
   | Continue => exists x y, l_src l = x ++ l_src (fst r) /\ l_out (fst r) = l_out l ++ y /\ bytes_ok x = true /\
                             CInv (p ++ x) (O ++ y) (l_s (fst r))
   | Stop h => exists x y, l_src l = x ++ l_src (fst r) /\ l_out (fst r) = l_out l ++ y /\ bytes_ok x = true /\
-                          if h =? 0 then Done (p ++ x) (O ++ y) else CInv (p ++ x) (O ++ y) (l_s (fst r))
+                          if h =? 0 then Fin (p ++ x) (O ++ y) else CInv (p ++ x) (O ++ y) (l_s (fst r))
   end.
 
 Lemma after_stepr p O l l' n r :
@@ -684,6 +687,100 @@ Proof.
     destruct (bytes_ok_split tg _ Hb) as [Hb1 _].
     eapply (after_stepr p O l (adv l tg) tg); [lia|exact Hb|reflexivity|reflexivity|].
     apply (u_cblock o d maxb _ O _ _ n); [exact B|exact Hb1|exact Htg|exact Hn|rewrite zlen_ztake; lia|exact Hc|].
+    eapply Kc_shift; [exact HK|]. auto.
+Qed.
+
+(* ---- the end of the frame ---- *)
+Lemma fin_ok_here d maxb O s :
+  binv skip d maxb dict O s -> d_remaining s = 0 -> zlen O < 18446744073709551616 ->
+  forall rest, fin_ok d O rest (O, rest).
+Proof.
+  intros (B1 & B2 & B3 & B4 & B5 & B6 & B7) ER Hacc rest. pose proof (zlen_nonneg O) as Ha.
+  unfold fin_ok. split; [|reflexivity].
+  destruct (f_csize d) as [n|]; [|exact I].
+  rewrite B6 in ER. destruct (n =? 0) eqn:E0; [reflexivity|]. cbn [orb].
+  apply Z.eqb_eq. unfold u64 in ER. fold (zlen O).
+  assert (X : (n - zlen O) mod 18446744073709551616 = 0) by exact ER.
+  apply Z.mod_divide in X; [|lia]. destruct X as [q Hq].
+  assert (q = 0) by nia. subst q. lia.
+Qed.
+
+Lemma u_checkSuffix d maxb pn O l crc :
+  binv skip d maxb dict O (l_s l) -> f_ccrc d = true -> d_remaining (l_s l) = 0 ->
+  zlen O < 18446744073709551616 -> zlen crc = 4 -> bytes_ok crc = true ->
+  Kc pn (fun g => E_suffix skip d O (crc ++ g)) ->
+  after pn O l (do_checkSuffix l crc).
+Proof.
+  intros B EC ER Hacc Hcl Hbc HK. unfold do_checkSuffix, after.
+  pose proof (fin_ok_here d maxb O _ B ER Hacc) as FIN.
+  assert (Hrd : rd32 crc = le_val crc) by (rewrite rd32_le_val by exact Hbc; rewrite ztake4_self by exact Hcl; reflexivity).
+  destruct B as (B1 & B2 & B3 & B4 & B5 & B6 & B7). rewrite Hrd, B3.
+  destruct (negb skip && negb (le_val crc =? xxh32 0 (d_xxh (l_s l)))) eqn:EK; cbn [fst snd]; [exact I|].
+  exists []. ss. rewrite !app_nil_r. split; [reflexivity|]. split; [reflexivity|]. left.
+  intro g. apply HK. unfold E_suffix. rewrite EC. exists crc, g. split.
+  - replace 4%nat with (length crc) by (unfold zlen in Hcl; lia). apply take_app.
+  - split; [|apply FIN].
+    destruct skip; [reflexivity|]. cbn [negb andb orb] in *. rewrite (B5 EC eq_refl) in EK.
+    apply negb_false_iff in EK. exact EK.
+Qed.
+
+Lemma c_storeSuffix d maxb p O l t :
+  d_stage (l_s l) = StoreSuffix -> binv skip d maxb dict O (l_s l) -> f_ccrc d = true -> d_remaining (l_s l) = 0 ->
+  zlen O < 18446744073709551616 ->
+  pre (d_tmpIn (l_s l)) (d_tmpInSize (l_s l)) = t -> bytes_ok t = true -> 0 <= d_tmpInSize (l_s l) < 4 ->
+  Kc p (fun g => E_suffix skip d O (t ++ g)) -> bytes_ok (l_src l) = true ->
+  stepr p O l (do_storeSuffix l).
+Proof.
+  intros Hst B EC ER Hacc Ht Hbt Hs HK Hb. unfold do_storeSuffix, tmpin_write. ss.
+  pose proof (zlen_nonneg (l_src l)) as Hl.
+  set (n := Z.min (4 - d_tmpInSize (l_s l)) (zlen (l_src l))) in *.
+  assert (Hn : 0 <= n <= zlen (l_src l) /\ n <= 4 - d_tmpInSize (l_s l)) by (unfold n; lia).
+  set (piece := ztake n (l_src l)).
+  assert (Hpl : zlen piece = n) by (unfold piece; rewrite zlen_ztake; lia).
+  destruct (bytes_ok_split n _ Hb) as [Hbp Hbr]. fold piece in Hbp.
+  destruct (stage_facts _ _ piece n t Ht ltac:(lia) Hpl) as (W1 & W2 & W3). rewrite W1.
+  assert (Hbtp : bytes_ok (t ++ piece) = true) by (rewrite bytes_ok_app, Hbt, Hbp; reflexivity).
+  assert (HK' : Kc (p ++ piece) (fun g => E_suffix skip d O ((t ++ piece) ++ g))).
+  { eapply Kc_shift; [exact HK|]. intros g res E. cbv beta. rewrite app_assoc. exact E. }
+  destruct (d_tmpInSize (l_s l) + n <? 4) eqn:E.
+  - apply Z.ltb_lt in E. apply stepr_stop_stage with (x := piece);
+      [lia | ss; unfold piece; rewrite ztake_zdrop_app; reflexivity | reflexivity | exact Hbp |].
+    eapply C_xs with (d := d) (maxb := maxb) (t := t ++ piece);
+      [ss; exact Hst | binv_same B | exact EC | ss; exact ER | ss; apply pre_full; exact W2 | exact Hbtp | exact HK'].
+  - apply Z.ltb_ge in E.
+    assert (H4 : zlen (t ++ piece) = 4) by lia.
+    rewrite (ztake4_self _ H4).
+    match goal with |- stepr _ _ _ (do_checkSuffix ?l1 _) =>
+      eapply (after_stepr p O l l1 n); [lia|exact Hb|reflexivity|reflexivity|] end.
+    fold piece. apply (u_checkSuffix d maxb); [binv_same B|exact EC|ss; exact ER|exact Hacc|exact H4|exact Hbtp|exact HK'].
+Qed.
+
+Lemma c_getSuffix d maxb p O l :
+  d_stage (l_s l) = GetSuffix -> binv skip d maxb dict O (l_s l) -> zlen O < 18446744073709551616 ->
+  Kc p (E_suffix skip d O) -> bytes_ok (l_src l) = true ->
+  stepr p O l (do_getSuffix l).
+Proof.
+  intros Hst B Hacc HK Hb. unfold do_getSuffix.
+  pose proof (zlen_nonneg (l_src l)) as Hl.
+  pose proof (binv_flags _ _ _ _ _ _ B) as (F1 & F2 & F3).
+  destruct (negb (d_remaining (l_s l) =? 0)) eqn:ER; [exact I|].
+  apply negb_false_iff in ER. apply Z.eqb_eq in ER.
+  pose proof (fin_ok_here d maxb O _ B ER Hacc) as FIN.
+  rewrite F2.
+  destruct (f_ccrc d) eqn:EC; cbn [negb].
+  2:{ unfold stepr. cbn [fst snd Z.eqb]. exists [], []. ss. rewrite !app_nil_r.
+      split; [reflexivity|]. split; [reflexivity|]. split; [reflexivity|]. left.
+      intro g. apply HK. unfold E_suffix. rewrite EC. apply FIN. }
+  destruct (zlen (l_src l) <? 4) eqn:E4.
+  - apply stepr_with_s with (s := set_stage (set_tmpInSize (l_s l) 0) StoreSuffix).
+    apply (c_storeSuffix d maxb p O _ []);
+      [reflexivity|binv_same B|exact EC|ss; exact ER|exact Hacc|reflexivity|reflexivity|ss; lia|exact HK|exact Hb].
+  - apply Z.ltb_ge in E4.
+    set (crc := ztake 4 (l_src l)).
+    assert (Hcl : zlen crc = 4) by (unfold crc; rewrite zlen_ztake; lia).
+    destruct (bytes_ok_split 4 _ Hb) as [Hb1 _]. fold crc in Hb1.
+    eapply (after_stepr p O l (adv l 4) 4); [lia|exact Hb|reflexivity|reflexivity|]. fold crc.
+    apply (u_checkSuffix d maxb); [exact B|exact EC|exact ER|exact Hacc|exact Hcl|exact Hb1|].
     eapply Kc_shift; [exact HK|]. auto.
 Qed.
 End Chunk.
